@@ -48,6 +48,8 @@ func defs() []unitDef {
 	nameSets := [][][4]string{
 		{{"a", "as", "al", "als"}, {"ab", "abs", "abl", "abls"}, {"abc", "abcs", "abcl", "abcls"}, {"abcd", "abcds", "abcdl", "abcdls"}},
 		{{"c.", "c.s", "c.long", "c.longs"}, {"d+", "d+s", "d+long", "d+longs"}, {"(e", "(es", "(elong", "(elongs"}, {"f|g", "f|gs", "f$", "f$s"}},
+		// names with a space inside
+		{{"l y", "l ys", "light year", "light years"}, {"k y", "k ys", "kilo year", "kilo years"}, {"m y", "m ys", "mega year", "mega years"}, {"g y", "g ys", "giga year", "giga years"}},
 	}
 	multSets := [][]int64{{2}, {60}, {10, 1000}, {2, 10}, {2, 60, 1000}, {10, 60, 1000}}
 	for ni, names := range nameSets {
@@ -332,6 +334,11 @@ func (c *checker) strings() {
 	c.checkString("5"+b[1]+"5"+b[1], 0, false, false, "repeated unit")
 	c.checkString(b[1], 0, false, false, "unit name without count")
 	c.checkString("99999999999999999999"+b[1], 0, true, false, "count does not fit in 64 bits")
+	// white space may separate a count from its unit and one component from the next; it does not glue digits together
+	c.checkString("5 5"+b[1], 0, false, false, "count split by a space")
+	c.checkString("1 5 "+b[1], 0, false, false, "count split by a space")
+	c.checkString("1\t0"+b[1], 0, false, false, "count split by a tab")
+	c.checkString("5"+b[1]+" 5", 0, false, false, "trailing count without a unit")
 	if len(ms) > 1 {
 		big, small := ms[0], ms[len(ms)-2]
 		c.checkString(fmt.Sprintf("5%s5%s", b[1], d.Mults[big][1]), 0, false, false, "wrong order (smaller unit first)")
@@ -505,7 +512,7 @@ func main() {
 			}
 			return res.Findings
 		},
-		Rule: "5 built-in unit sets + 12 generated definitions (multipliers over {2,10,60,1000}; names that are prefixes of each other; names with regexp metacharacters) x {every integer in [0,200000] (generated definitions: [0,20000] in the quick tier), powers of ten +-1 up to 10^18, multiplier boundaries, 2^63-1; floats k/8 for k<=4000 and k*10^e; every well-formed string of 1-3 strictly descending components with counts from {0,1,9,10,59,60,61,100} in 4 name/spacing variants; 14 near misses incl. 64-bit overflow}; every case distinct. First use: for every definition, every pair over {ParseInt, FormatShortInt, FormatLongInt, ParseFloat} issued by two threads on one fresh definition under the cooperative scheduler (sync shim + access events on schema/), all schedules with <= 2 preemptions: vector-clock race scan and results equal to a single caller's",
+		Rule: "5 built-in unit sets + 18 generated definitions (multipliers over {2,10,60,1000}; names that are prefixes of each other; names with regexp metacharacters; names with a space inside) x {every integer in [0,200000] (generated definitions: [0,20000] in the quick tier), powers of ten +-1 up to 10^18, multiplier boundaries, 2^63-1; floats k/8 for k<=4000 and k*10^e; every well-formed string of 1-3 strictly descending components with counts from {0,1,9,10,59,60,61,100} in 4 name/spacing variants; 14 near misses incl. 64-bit overflow}; every case distinct. First use: for every definition, every pair over {ParseInt, FormatShortInt, FormatLongInt, ParseFloat} issued by two threads on one fresh definition under the cooperative scheduler (sync shim + access events on schema/), all schedules with <= 2 preemptions: vector-clock race scan and results equal to a single caller's",
 		Assumptions: []string{
 			"ambiguous inputs are outside the alphabet: bare numbers without a unit name, decimal counts, negative quantities",
 			"float tolerance 1e-6 absolute + 1e-9 relative (the formatter prints 6 decimals)",
